@@ -37,6 +37,7 @@ namespace {
     uint64_t g_rng = 88172645463325252ull;
     uint64_t g_min_delay = 1000, g_max_delay = 200000, g_burst = 0;
     struct sim_mpi_stats g_stats;
+    int g_hold = 0;
 
     uint64_t rnd()
     {
@@ -92,6 +93,7 @@ namespace {
     // has the request completed (in the transport's view) at the current virtual time?
     bool ready(SimReq* r)
     {
+        if (g_hold) return false;
         if (r->kind == 1 && !r->peer) return false;
         return r->complete_ns != 0 && sim_now_ns() >= r->complete_ns;
     }
@@ -145,6 +147,16 @@ SIM_EXPORT void sim_mpi_get_stats(sim_mpi_stats* out)
     for (int i = 0; i < g_nreq; i++)
         if (!g_reqs[i]->reported) g_stats.inflight++;
     *out = g_stats;
+}
+SIM_EXPORT void sim_mpi_hold(int on)
+{
+    if (g_hold && !on)
+    {
+        uint64_t now = sim_now_ns();
+        for (int i = 0; i < g_nreq; i++)
+            if (!g_reqs[i]->reported && g_reqs[i]->complete_ns != 0) g_reqs[i]->complete_ns = draw_completion(now);
+    }
+    g_hold = on;
 }
 // transport-side truth about one request (by its original handle)
 SIM_EXPORT int sim_mpi_request_state(void* handle)
